@@ -126,7 +126,7 @@ trait CommonThreadInfo {
         pid: nix::unistd::Pid,
     ) -> Result<T> {
         let mut data = std::mem::MaybeUninit::<T>::uninit();
-        let io = libc::iovec {
+        let mut io = libc::iovec {
             iov_base: data.as_mut_ptr().cast(),
             iov_len: std::mem::size_of::<T>(),
         };
@@ -135,10 +135,16 @@ trait CommonThreadInfo {
                 request,
                 libc::pid_t::from(pid),
                 flag.unwrap_or(NT_Elf::NT_NONE),
-                &io as *const _,
+                &mut io as *mut _,
             )
         };
         Errno::result(res)?;
+        // The kernel reports how much it wrote. For a thread that runs 32-bit code it hands out
+        // the (shorter) 32-bit register set, which is not what `T` describes: the rest of the
+        // buffer would be uninitialized.
+        if io.iov_len != std::mem::size_of::<T>() {
+            return Err(Errno::EIO.into());
+        }
         Ok(unsafe { data.assume_init() })
     }
 
